@@ -501,7 +501,7 @@ func (e *m4Env) runPanicScenario(run *vlib.Run, caseIdx int, sc m4Scenario) {
 		return
 	case callHung:
 		w := wit("the call did not return and the process went quiet")
-		w["stacks"] = thunderStacks(base)
+		w["stacks"] = hangStacks()
 		run.Count("m4:hangs", 1)
 		run.Violation(caseIdx, "", w)
 		remember()
@@ -566,7 +566,7 @@ func (e *m4Env) runScenario(run *vlib.Run, caseIdx int, sc m4Scenario) {
 		run.Violation(caseIdx, classifyPanic("", rec.Value, rec.TopFrame), w)
 		return
 	case callHung:
-		stacks := thunderStacks(base)
+		stacks := hangStacks()
 		w := wit("the call did not return and the process went quiet")
 		w["stacks"] = stacks
 		run.Count("m4:hangs", 1)
